@@ -16,7 +16,9 @@
        cancelled), Free (may return anything at any time), Never.
    [fix_c09] selects the candidate repair hooks/fix-c09-composite-stop-during-reload.patch
    (Run takes reloadMu around its stopAllRunnables), committed as /repo 82de565; [fix_c11] the one for
-   hasMembershipChanged (/repo 5b52fc2); [fix_stale] the candidate repair
+   hasMembershipChanged (/repo 5b52fc2); [fix_lc] the repaired lifecycle.StartStop (/repo b0569e6:
+   a blocking Stop() that is overtaken by a new Run cycle of the same child returns instead of
+   waiting for that cycle); [fix_stale] the repair
    hooks/fix-c09-composite-stale-stop.patch (every boot has its own context and goroutine group;
    stopAllRunnables, after the Stop() calls returned, cancels that context and waits for the
    goroutines of the generation). *)
@@ -31,7 +33,8 @@ Inductive rexit := OnSignal | Free | Never.
 Inductive rkind := RWC | RPlain | RNone.   (* has ReloadWithConfig / only Reload / neither *)
 
 Record cspec := mkSpec { c_name : N; c_stop : sstyle; c_exit : rexit; c_rk : rkind }.
-Record params := mkParams { pool : list cspec; fix_c09 : bool; fix_c11 : bool; fix_stale : bool }.
+Record params := mkParams { pool : list cspec; fix_c09 : bool; fix_c11 : bool; fix_stale : bool;
+                            fix_lc : bool }.
 
 Definition default_spec : cspec := mkSpec 0%N NonBlocking OnSignal RNone.
 Definition spec_of (P : params) (c : N) : cspec := nth (N.to_nat c) (pool P) default_spec.
@@ -348,6 +351,13 @@ Definition exit_ok (P : params) (k : kid) (e : oerr) (s : state) : bool :=
 Definition is_nonblocking (P : params) (c : N) : bool :=
   match c_stop (spec_of P c) with NonBlocking => true | UntilRunDone => false end.
 
+(* a Stop() worker waiting on child c learns that the cycle it targeted is over *)
+Definition release_worker (c : N) (w : worker) : worker :=
+  match w_pc w with
+  | WCalled => if N.eqb (w_child w) c then mkWorker (w_owner w) (w_child w) WUnblocked else w
+  | _ => w
+  end.
+
 (* ------------------------------------------------------------------ step *)
 
 Definition step (P : params) (s : state) (l : label) : option state :=
@@ -510,8 +520,11 @@ Definition step (P : params) (s : state) (l : label) : option state :=
       match k_pc k with
       | KLaunched =>
         if N.eqb (k_child k) c then
-          let sg := if ever c s && negb (active c s) then remove_N c (sigs s) else sigs s in
-          Some (set_sigs sg (set_kids (upd i (set_kpc KInRun) (kids s)) s))
+          let reset := ever c s && negb (active c s) in
+          let sg := if reset then remove_N c (sigs s) else sigs s in
+          (* repaired lifecycle: the cycle reset releases the Stop() callers that were waiting *)
+          let ws := if reset && fix_lc P then map (release_worker c) (workers s) else workers s in
+          Some (set_workers ws (set_sigs sg (set_kids (upd i (set_kpc KInRun) (kids s)) s)))
         else None
       | _ => None
       end
